@@ -7,7 +7,8 @@ Stage B: TLC prints boundary strings from the specification's case structure (MC
          helper on them, on exhaustive sweeps (all octet strings of length 0..2, length 3 per tier, all texts of
          length 0..6 over a small alphabet) and on seeded random strings, each call under recover + watchdog.
 Stage C: TLC (Trace_C14) judges every observation: a panic inside the library or a hang is a mismatch; the class of
-         each recorded defect is decided by the trace specification; result-class differences are information."""
+         each recorded defect is decided by the trace specification; result-class differences are information.
+Added after seeded round 3: texts whose byte length passes a guard but whose case-mapped form has another length."""
 import json, os, subprocess, sys
 from concurrent.futures import ThreadPoolExecutor
 sys.path.insert(0, os.path.dirname(os.path.dirname(os.path.abspath(__file__))))
